@@ -55,7 +55,8 @@ def ty_sexp(t):
     if k == "fun":
         return "(fun %s %s)" % (ty_sexp(t[1]), ty_sexp(t[2]))
     if k == "rec":
-        return "(rec %s)" % " ".join('("%s" %s)' % (f, ty_sexp(u)) for f, u in t[1])
+        tail = [" (rvar %d)" % t[2][1]] if len(t) > 2 else []
+        return "(rec %s)" % (" ".join('("%s" %s)' % (f, ty_sexp(u)) for f, u in t[1]) + "".join(tail)).strip()
     if k == "enum":
         return "(enum %s)" % erows_sexp(t[1])
     if k == "dict":
@@ -64,6 +65,8 @@ def ty_sexp(t):
         return "(tvar %d)" % t[1]
     if k == "forall":
         return "(forall %s)" % ty_sexp(t[1])
+    if k == "forallr":
+        return "(forallr %s)" % ty_sexp(t[1])
     raise ValueError(t)
 
 
@@ -108,9 +111,21 @@ STDFN = {"strlen": "std.string.length", "arrlen": "std.array.length", "arrat": "
          "recget": "std.record.get"}
 
 TV0, TV1 = ("tvar", 0), ("tvar", 1)
+RV0 = ("rvar", 0)
+AA = "aa"          # the field the row-polymorphic helpers look at: sorts before every generated field name
 # polymorphic helpers bound at the top of (some) programs:
-#   name -> (number of quantifiers, annotation source, body builder)
+#   name -> (number of quantifiers, annotation source, body builder[, kinds of the quantifiers, outermost first:
+#            "t" type variable / "r" record-row variable])
 POLY = {
+    "pgetx": (1, "forall r. {aa : Number; r} -> Number",
+              lambda: N("lam", ["p", N("proj", [N("var", ["p"], ("rec", ((AA, NUM),), RV0)), AA], NUM)],
+                        ("fun", ("rec", ((AA, NUM),), RV0), NUM)), ["r"]),
+    "pidrow": (1, "forall r. {aa : Number; r} -> {aa : Number; r}",
+               lambda: N("lam", ["p", N("var", ["p"], ("rec", ((AA, NUM),), RV0))],
+                         ("fun", ("rec", ((AA, NUM),), RV0), ("rec", ((AA, NUM),), RV0))), ["r"]),
+    "pgetxa": (2, "forall a r. {aa : a; r} -> a",
+               lambda: N("lam", ["p", N("proj", [N("var", ["p"], ("rec", ((AA, TV0),), RV0)), AA], TV0)],
+                         ("fun", ("rec", ((AA, TV0),), RV0), TV0)), ["t", "r"]),
     "pid": (1, "forall a. a -> a",
             lambda: N("lam", ["x", N("var", ["x"], TV0)], ("fun", TV0, TV0))),
     "pconst": (2, "forall a b. a -> b -> a",
@@ -159,7 +174,10 @@ class Frag:
         if c == "rec":
             n = r.range(1, 3)
             fs = sorted(r.shuffle(FIELDS)[:n])
-            return ("rec", tuple((f, self.gen_type(depth - 1, fun_ok)) for f in fs))
+            rows = tuple((f, self.gen_type(depth - 1, fun_ok)) for f in fs)
+            if r.chance(1, 5):
+                rows = ((AA, NUM),) + rows[:2]
+            return ("rec", rows)
         if c == "enum":
             n = r.range(1, 3)
             return ("enum", tuple((t, self.gen_type(depth - 1, fun_ok) if r.chance(1, 3) else None)
@@ -384,6 +402,23 @@ class Frag:
             return N("prim2", ["arrat", N("num", [r.range(0, 3), 1], NUM), self.gen(ctx, ("arr", T), h)], T, x=[T])
         if p == "poly":
             name = r.choice(self.polys)
+            if name in ("pgetx", "pidrow", "pgetxa"):
+                others = tuple(sorted((f, self.gen_type(1, False)) for f in r.shuffle(FIELDS)[:r.range(0, 2)]))
+                self.features.add("row-poly:" + name)
+                if name == "pgetx" and k == "num":
+                    R = ("rec", ((AA, NUM),) + others)
+                    f = N("var", ["pgetx"], ("fun", R, NUM), x=[("rows", others)])
+                    return N("app", [f, self.gen(ctx, R, size - 1)], T)
+                if name == "pidrow" and k == "rec" and T[1] and T[1][0] == (AA, NUM):
+                    f = N("var", ["pidrow"], ("fun", T, T), x=[("rows", T[1][1:])])
+                    return N("app", [f, self.gen(ctx, T, size - 1)], T)
+                if name == "pgetxa" or k != "num":
+                    if "pgetxa" not in self.polys:
+                        return self.lit(T, ctx, size)
+                    R = ("rec", ((AA, T),) + others)
+                    f = N("var", ["pgetxa"], ("fun", R, T), x=[T, ("rows", others)])
+                    return N("app", [f, self.gen(ctx, R, size - 1)], T)
+                return self.lit(T, ctx, size)
             if name == "pmap" and k != "arr":
                 name = "pid" if "pid" in self.polys else None
                 if name is None:
@@ -505,7 +540,7 @@ class Frag:
         self.polys = r.shuffle(sorted(POLY))[:npoly]
         body = self.gen([], T, size)
         for name in reversed(self.polys):
-            k, ann, mk = POLY[name]
+            k, ann, mk = POLY[name][:3]
             body = N("plet", [name, k, ann, mk(), body], T)
         pr = Printer()
         pr.out("(")
@@ -736,7 +771,13 @@ def to_sexp(n):
 
 
 def insts_sexp(ts):
-    return "(%s)" % " ".join(ty_sexp(t) for t in ts)
+    out = []
+    for t in ts:
+        if t[0] == "rows":
+            out.append("(irow %s)" % " ".join('("%s" %s)' % (f, ty_sexp(u)) for f, u in t[1]))
+        else:
+            out.append("(ity %s)" % ty_sexp(t))
+    return "(%s)" % " ".join(out)
 
 
 def to_cert(n):
@@ -762,9 +803,9 @@ def to_cert(n):
         e = to_cert(a[2])
         if a[1] is not None:
             e = "(aannt %s %s)" % (e, ty_sexp(a[1]))
-        return '(alet "%s" 0 %s %s)' % (a[0], e, to_cert(a[3]))
+        return '(alet "%s" () %s %s)' % (a[0], e, to_cert(a[3]))
     if k == "plet":
-        return '(alet "%s" %d %s %s)' % (a[0], a[1], to_cert(a[3]), to_cert(a[4]))
+        return '(alet "%s" (%s) %s %s)' % (a[0], " ".join(poly_kinds(a[0])), to_cert(a[3]), to_cert(a[4]))
     if k == "if":
         return "(aif %s %s %s)" % tuple(to_cert(x) for x in a)
     if k == "arr":
@@ -793,6 +834,35 @@ def to_cert(n):
     if k == "sub":
         return "(asub %s %s)" % (to_cert(a[0]), ty_sexp(n.ty))
     raise ValueError(k)
+
+
+def poly_kinds(name):
+    e = POLY[name]
+    return e[3] if len(e) > 3 else ["t"] * e[0]
+
+
+def poly_names(name):
+    """the quantified names of the helper's annotation, outermost first"""
+    import re
+    return re.match(r"forall ([a-z ]+)\.", POLY[name][1]).group(1).split()
+
+
+def poly_rigid(name):
+    """(type variable names, row variable names), innermost first (= de Bruijn order)"""
+    ks, ns = poly_kinds(name), poly_names(name)
+    return ([n for n, k in reversed(list(zip(ns, ks))) if k == "t"], [n for n, k in reversed(list(zip(ns, ks))) if k == "r"])
+
+
+def poly_insts(name, tout, rout):
+    """ordered instantiation arguments (outermost quantifier first)"""
+    ks = poly_kinds(name)
+    out = []
+    for i, k in enumerate(ks):
+        if k == "t":
+            out.append(tout.get(ks[i + 1:].count("t"), NUM))
+        else:
+            out.append(("rows", tuple(rout.get(ks[i + 1:].count("r"), ()))))
+    return out
 
 
 def gen_program(rng, size, holes=True):
@@ -825,7 +895,11 @@ def conv_tc_type(t):
             if not u:
                 return None
             fs.append((r[0][1], u))
-        return ("rec", tuple(sorted(fs))) if t[2] == "closed" else ("rec-open", tuple(sorted(fs)))
+        if t[2] == "closed":
+            return ("rec", tuple(sorted(fs)))
+        if t[2] != "dyn" and not t[2][1][1].startswith("_"):
+            return ("rec-rigid", tuple(sorted(fs)), t[2][1][1])
+        return ("rec-open", tuple(sorted(fs)))
     if h == "enum":
         rows = []
         for r in t[1]:
@@ -835,7 +909,7 @@ def conv_tc_type(t):
                 if u is None:
                     return None
             rows.append((r[0][1], u))
-        rows = tuple(sorted(rows, key=lambda x: x[0]))
+        rows = tuple(sorted(rows, key=lambda x: (x[0], x[1] is not None)))
         return ("enum", rows) if t[2] == "closed" else ("enum-open", rows)
     if h == "forall":
         # the quantified type of an annotated helper: its body, with the quantified names rigid
@@ -859,7 +933,7 @@ def ty_match(real, want):
     if k == "enum-open":
         return want[0] == "enum" and all(any(t == t2 and ((u is None) == (u2 is None)) and (u is None or ty_match(u, u2))
                                              for t2, u2 in want[1]) for t, u in real[1])
-    if k == "rec-open":
+    if k in ("rec-open", "rec-rigid"):
         return want[0] == "rec" and all(any(f == g and ty_match(u, v) for g, v in want[1]) for f, u in real[1])
     if k == "rec" and want[0] == "dict":
         # the typechecker inferred the record type where the certificate already uses the dictionary
@@ -910,9 +984,11 @@ def compare_with_tc(prog, terms):
         if kind is None:
             continue
         s, e = nd.span
-        ty = by.get((s, e, kind))
-        if ty is None:
-            ty = by.get((s + 1, e - 1, kind))
+        ty = None
+        for dd in (0, -1, -2, -3):       # a parenthesised term's span includes its (repeated) parentheses
+            ty = by.get((s + dd, e - dd, kind))
+            if ty is not None:
+                break
         if ty is None:
             continue
         real = conv_tc_type(ty)
@@ -1034,7 +1110,7 @@ def default_type(t):
     if k == "fun":
         a, b = default_type(t[1]), default_type(t[2])
         return ("fun", a, b) if a and b else None
-    if k in ("rec", "rec-open"):
+    if k in ("rec", "rec-open", "rec-rigid"):
         fs = []
         for f, u in t[1]:
             d = default_type(u)
@@ -1054,30 +1130,49 @@ def default_type(t):
 
 
 def rigid_type(t, names):
-    """inside the body of a polymorphic helper: rigid variables -> de Bruijn tvars"""
+    """inside the body of a polymorphic helper: rigid variables -> de Bruijn variables;
+    names = (type variable names, row variable names), innermost first"""
+    tn, rn = names
     k = t[0]
     if k == "rigid":
-        return ("tvar", names.index(t[1])) if t[1] in names else NUM
+        return ("tvar", tn.index(t[1])) if t[1] in tn else NUM
     if k == "any":
         return NUM
     if k in ("arr", "dict"):
         return (k, rigid_type(t[1], names))
     if k == "fun":
         return ("fun", rigid_type(t[1], names), rigid_type(t[2], names))
+    if k == "rec-rigid" and t[2] in rn:
+        return ("rec", tuple((f, rigid_type(u, names)) for f, u in t[1]), ("rvar", rn.index(t[2])))
+    if k in ("rec", "rec-open", "rec-rigid"):
+        return ("rec", tuple((f, rigid_type(u, names)) for f, u in t[1]))
     return default_type(t)
 
 
-def match_poly(poly, inst, out):
-    """match the body of a polymorphic type (with ("tvar", i)) against an instance; fills out[i]"""
+def match_poly(poly, inst, out, rout=None):
+    """match the body of a polymorphic type (with ("tvar", i) and record tails ("rvar", i)) against an
+    instance; fills out[i] (types) and rout[i] (the rows a row variable stands for)"""
+    if rout is None:
+        rout = {}
     if poly[0] == "tvar":
         out.setdefault(poly[1], inst)
         return True
     if poly[0] != inst[0]:
         return False
     if poly[0] in ("arr", "dict"):
-        return match_poly(poly[1], inst[1], out)
+        return match_poly(poly[1], inst[1], out, rout)
     if poly[0] == "fun":
-        return match_poly(poly[1], inst[1], out) and match_poly(poly[2], inst[2], out)
+        return match_poly(poly[1], inst[1], out, rout) and match_poly(poly[2], inst[2], out, rout)
+    if poly[0] == "rec":
+        have = dict(inst[1])
+        for f, u in poly[1]:
+            if f not in have or not match_poly(u, have[f], out, rout):
+                return False
+        rest = tuple((f, u) for f, u in inst[1] if f not in dict(poly[1]))
+        if len(poly) > 2:
+            rout.setdefault(poly[2][1], rest)
+            return True
+        return not rest
     return True
 
 
@@ -1096,15 +1191,21 @@ def py_subb(a, b):
     return False
 
 
-def subst_tvars(t, insts):
-    """instantiate the de Bruijn variables of a helper's body type; insts[i] is the type for tvar i"""
+def subst_tvars(t, insts, rinsts=None):
+    """instantiate the de Bruijn variables of a helper's body type; insts[i] is the type for tvar i,
+    rinsts[i] the rows for rvar i"""
     k = t[0]
     if k == "tvar":
         return insts[t[1]]
     if k in ("arr", "dict"):
-        return (k, subst_tvars(t[1], insts))
+        return (k, subst_tvars(t[1], insts, rinsts))
     if k == "fun":
-        return ("fun", subst_tvars(t[1], insts), subst_tvars(t[2], insts))
+        return ("fun", subst_tvars(t[1], insts, rinsts), subst_tvars(t[2], insts, rinsts))
+    if k == "rec":
+        fs = tuple((f, subst_tvars(u, insts, rinsts)) for f, u in t[1])
+        if len(t) > 2:
+            fs = fs + tuple((rinsts or {}).get(t[2][1], ()))
+        return ("rec", fs)
     return t
 
 
@@ -1152,7 +1253,7 @@ class CertBuilder:
         kind = self.kind_of(nd)
         s, e = nd.span
         ty = None
-        for d in (0, 1, -1, -2, -3):     # a parenthesised term's span includes its (repeated) parentheses
+        for d in (0, -1, -2, -3):        # a parenthesised term's span includes its (repeated) parentheses
             ty = self.by.get((s + d, e - d, kind))
             if ty is not None:
                 break
@@ -1206,13 +1307,13 @@ class CertBuilder:
                 raise CertError("unbound %s" % a[0])
             if env[a[0]][0] == "poly":
                 # a polymorphic helper used as a value: instantiated at the type its context requires
-                nq = POLY[a[0]][0]
                 body = POLY[a[0]][2]().ty
-                out = {}
-                if want is None or not match_poly(body, want, out):
+                out, rout = {}, {}
+                if want is None or not match_poly(body, want, out, rout):
                     raise CertError("polymorphic helper %s used as a value of unknown instance" % a[0])
-                iv = [out.get(i, NUM) for i in range(nq)]
-                return '(avar "%s" %s)' % (a[0], insts_sexp([iv[nq - 1 - i] for i in range(nq)])), subst_tvars(body, iv)
+                nt = poly_kinds(a[0]).count("t")
+                iv = [out.get(i, NUM) for i in range(nt)]
+                return ('(avar "%s" %s)' % (a[0], insts_sexp(poly_insts(a[0], out, rout))), subst_tvars(body, iv, rout))
             return '(avar "%s" ())' % a[0], env[a[0]]
         if k == "tag":
             t = self.tc(n)
@@ -1221,7 +1322,7 @@ class CertBuilder:
             return '(atag "%s" (%s))' % (a[0], erows_sexp(t[1])), t
         if k == "variant":
             t = self.tc(n)
-            pay = dict(t[1]).get(a[0]) if t[0] == "enum" else None
+            pay = ([u for x, u in t[1] if x == a[0] and u is not None] or [None])[0] if t[0] == "enum" else None
             if pay is None:
                 raise CertError("variant %s typed %r" % (a[0], t))
             ce, Te = self.build(a[1], env, pay)
@@ -1245,19 +1346,16 @@ class CertBuilder:
                 return "(aapp %s %s)" % (cf, self.coerce(ca, Ta, Tf[1], "argument")), Tf[2]
             ca, Ta = self.build(arg, env)
             if poly_head:
-                nq = POLY[f.a[0]][0]
                 body = POLY[f.a[0]][2]().ty
-                out = {}
+                out, rout = {}, {}
                 res = self.tc(n, need=False)
-                if not match_poly(body, ("fun", Ta, res if res is not None else ("fun", NUM, NUM)), out):
-                    out = {}
-                    if not match_poly(body[1], Ta, out):
+                if not match_poly(body, ("fun", Ta, res if res is not None else ("fun", NUM, NUM)), out, rout):
+                    out, rout = {}, {}
+                    if not match_poly(body[1], Ta, out, rout):
                         raise CertError("instance of %s does not match the argument type %s" % (f.a[0], ty_sexp(Ta)))
-                insts_by_var = [out.get(i, NUM) for i in range(nq)]
-                Tf = subst_tvars(body, insts_by_var)
-                cf = '(avar "%s" %s)' % (f.a[0], insts_sexp([insts_by_var[nq - 1 - i] for i in range(nq)]))
-            else:
-                cf, Tf = self.build(f, env)
+                nt = poly_kinds(f.a[0]).count("t")
+                Tf = subst_tvars(body, [out.get(i, NUM) for i in range(nt)], rout)
+                cf = '(avar "%s" %s)' % (f.a[0], insts_sexp(poly_insts(f.a[0], out, rout)))
             if Tf[0] != "fun":
                 raise CertError("application of a term of type %s" % ty_sexp(Tf))
             return "(aapp %s %s)" % (cf, self.coerce(ca, Ta, Tf[1], "argument")), Tf[2]
@@ -1269,10 +1367,9 @@ class CertBuilder:
             e2 = dict(env)
             e2[a[0]] = Te
             cb, Tb = self.build(a[3], e2, want)
-            return '(alet "%s" 0 %s %s)' % (a[0], ce, cb), Tb
+            return '(alet "%s" () %s %s)' % (a[0], ce, cb), Tb
         if k == "plet":
-            nq = a[1]
-            self.rigid = ["b", "a"][-nq:] if nq == 2 else ["a"]
+            self.rigid = poly_rigid(a[0])
             try:
                 ce, Te = self.build(a[3], env)
             finally:
@@ -1282,7 +1379,7 @@ class CertBuilder:
             e2 = dict(env)
             e2[a[0]] = ("poly", a[0])
             cb, Tb = self.build(a[4], e2, want)
-            return '(alet "%s" %d %s %s)' % (a[0], nq, ce, cb), Tb
+            return '(alet "%s" (%s) %s %s)' % (a[0], " ".join(poly_kinds(a[0])), ce, cb), Tb
         if k == "if":
             cc, Tc = self.build(a[0], env)
             if want is None:
@@ -1326,7 +1423,7 @@ class CertBuilder:
                 if x is None:
                     parts.append(self.build(b, env, want))
                 else:
-                    pay = dict(Ts[1]).get(t)
+                    pay = ([u for y, u in Ts[1] if y == t and u is not None] or [None])[0]
                     if pay is None:
                         raise CertError("arm '%s %s of a match on %s" % (t, x, ty_sexp(Ts)))
                     e2 = dict(env)
@@ -1521,6 +1618,8 @@ def mutate(prog, rng):
             what = "if-branch-kind"
         elif k == "app" and c < 3:
             n.a[0], n.a[1] = n.a[1], n.a[0]
+            if n.a[0].k == "tag":        # `'T e` is the syntax of a variant, not of an application
+                n.k, n.a = "variant", [n.a[0].a[0], n.a[1]]
             what = "swap-function-argument"
         if what:
             break
